@@ -1,5 +1,6 @@
 # -*- coding: utf-8 -*-
 
+import math
 import re
 from typing import Any
 
@@ -152,7 +153,10 @@ def _scalar_node_from_value(
             except ValueError:
                 pass
             else:
-                return _ast.FloatValue(value=str(fl))
+                # Only when the number denotes the very same text: the literal
+                # must read back as the value it was printed from.
+                if math.isfinite(fl) and str(fl) == scalar_value:
+                    return _ast.FloatValue(value=scalar_value)
 
         return _ast.StringValue(value=scalar_value)
 
